@@ -17,7 +17,7 @@ PROPS = {
     "C01": {
         "title": "exactly-once delivery",
         "rules": [r_m1.rule_atom, r_m1.rule_one, r_m1.rule_prov, r_m1.rule_amt, r_m1.rule_clamp, r_m1.rule_endguard,
-                  r_m1.rule_complete, r_ticket.rule_ticket, r_ticket.rule_gate, r_live.rule_amt_pub, r_m1.rule_exact],
+                  r_m1.rule_complete, r_m1.rule_ctor, r_ticket.rule_ticket, r_ticket.rule_gate, r_live.rule_amt_pub, r_m1.rule_exact],
         "explanation": "Decides that the code is an instance of the fetch_add-interval protocol (DESIGN 1.2, M1/M2): for every "
                        "world (5 implementors + 4 adaptor instantiations) x every pull unit (single, one-shot chunk, buffered) "
                        "the unit is evaluated with crate-local callees inlined; rules: ATOM (who may write the counters; no "
@@ -47,7 +47,7 @@ PROPS = {
     },
     "C03": {
         "title": "chunk contract",
-        "rules": [r_m1.rule_clamp, r_m1.rule_amt, r_m1.rule_prov, r_m1.rule_nonempty, r_m1.rule_exact, r_m1.rule_complete,
+        "rules": [r_m1.rule_clamp, r_m1.rule_ctor, r_m1.rule_amt, r_m1.rule_prov, r_m1.rule_nonempty, r_m1.rule_exact, r_m1.rule_complete,
                   r_ovf.rule_ovf, r_ovf.rule_zero],
         "explanation": "CLAMP/AMT: a chunk is [begin, min(begin+n, LEN)) built from the reserved n; COMPLETE: clamped to exactly "
                        "LEN, so it is shorter than n only at the end; NONEMPTY: Some only under begin < end of the very extent "
@@ -107,7 +107,7 @@ PROPS = {
     },
     "C08": {
         "title": "moved out or dropped exactly once",
-        "rules": [r_own.rule_own, r_own.rule_view, r_m1.rule_prov, r_m1.rule_clamp, r_m1.rule_amt, r_state.rule_seq,
+        "rules": [r_own.rule_own, r_own.rule_view, r_m1.rule_prov, r_m1.rule_clamp, r_m1.rule_ctor, r_m1.rule_amt, r_state.rule_seq,
                   r_ovf.rule_ovf, r_m1.rule_one],
         "explanation": "OWN.a: raw element reads are the single move-out (index = reserved index < LEN) and the exclusive "
                        "remainder read over [split, LEN); OWN.b/OWN.view: owning views over reserved elements are handed on, "
@@ -228,7 +228,7 @@ PROPS = {
     },
     "C18": {
         "title": "panic containment",
-        "rules": [r_live.rule_unw, r_ticket.rule_cell, r_ticket.rule_gate, r_own.rule_view],
+        "rules": [r_live.rule_unw, r_ticket.rule_cell, r_ticket.rule_gate, r_own.rule_view, r_own.rule_own],
         "explanation": "UNW: every terminator that can unwind inside a held region (calls not on the cannot-unwind table, drops "
                        "of user values, overflow asserts) has a cleanup path that drops a guard whose Drop sets the end flag, "
                        "and the guard is alive there; with GATE and the waiters' flag check this releases everyone; CELL.e: no "
